@@ -160,7 +160,7 @@ Proof. exact @doubling_agrees_with_unroll. Qed.
 
 (* T10.6  The candidate repair of jetexpand_ode_via_jvp -- t handed to jvp as one
    more primal with tangent 1, i.e. F_{n+1} = <grad_x F_n, (x_1,..,f)> + dF_n/dt
-   ([via_jvp_fixed_model], Proofs/JetProofs.v) -- is correct for EVERY
+   ([via_jvp_fixed_model], Model/Jet.v) -- is correct for EVERY
    polynomial field, time-dependent or not. *)
 Theorem C10_via_jvp_with_time_tangent_is_correct :
   forall (F : Type) (H : FieldOps F) (FL : FieldLaws F)
@@ -170,6 +170,15 @@ Theorem C10_via_jvp_with_time_tangent_is_correct :
      forall j, j < vf_k v -> length (nth j inits []) = vf_d v) ->
     via_jvp_fixed_model v inits t0 num = Some (spec_derivs v t0 inits num).
 Proof. exact @via_jvp_fixed_correct. Qed.
+
+(* T10.7  The pytree wrapper's bookkeeping (model of the flattening order only:
+   ravel = natural coordinates re-ordered by [perm], Model/Jet.v): unravel after
+   ravel is the identity whenever [perm] lists every coordinate 0..d-1. *)
+Theorem C10_pytree_unravel_inverts_ravel :
+  forall (F : Type) (H : FieldOps F) (perm : list nat) (x : list F),
+    length x = length perm -> (forall i, i < length perm -> In i perm) ->
+    unpermute_vec perm (permute_vec perm x) = x.
+Proof. exact @unpermute_permute. Qed.
 
 Print Assumptions C10_formal_solution_is_unique.
 Print Assumptions C10_recursion_computes_a_formal_solution.
@@ -183,3 +192,4 @@ Print Assumptions C10_doubling_time_dependent_refuted.
 Print Assumptions C10_routines_agree.
 Print Assumptions C10_doubling_agrees_with_unroll_on_autonomous_first_order_fields.
 Print Assumptions C10_via_jvp_with_time_tangent_is_correct.
+Print Assumptions C10_pytree_unravel_inverts_ravel.
